@@ -102,13 +102,18 @@ theorem sumVotes_foldSetZero (hA : LawfulArith A) (s : St α) (hwf : s.WF) (cids
 
 /-- **a batch of just-defeated candidates**: their ballots move on at unchanged value, their votes are zeroed;
     the bundle is preserved and Σ votes + exhausted does not change. -/
-theorem Inv.transferDefeatedMany (hA : LawfulArith A) {s : St α} (h : Inv A s) (cids : List Nat) (verb : String)
+def defeatedCore (s : St α) (cids : List Nat) : St α :=
+  cids.foldl (fun acc c => acc.setVote c A.zero) (transferAll A s cids id)
+
+theorem transferDefeated_eq (s : St α) (cids : List Nat) (verb : String) :
+    transferDefeated A s cids verb = (defeatedCore A s cids).logAct A "transfer" verb cids := rfl
+
+/-- the state of an exclusion transfer just before it is logged -/
+theorem Inv.defeatedCore (hA : LawfulArith A) {s : St α} (h : Inv A s) (cids : List Nat)
     (hnd : cids.Nodup)
     (hx : ∀ cid ∈ cids, ∃ x ∈ s.cands, x.cid = cid ∧ ¬ x.inScope ∧ x.st ≠ .hopeful ∧ x.vote = s.tally A cid) :
-    Inv A (Droop.transferDefeated A s cids verb) := by
-  unfold Droop.transferDefeated
-  dsimp only
-  apply Inv.logAct
+    Inv A (Droop.defeatedCore A s cids) := by
+  unfold Droop.defeatedCore
   have hr : ∀ b ∈ s.ballots, 0 ≤ id b.w := fun b hb => h.wpos b hb
   have hscope : ∀ c ∈ s.cands, c.inScope → c.cid ∉ cids := by
     intro c hc hs hmem
@@ -177,5 +182,12 @@ theorem Inv.transferDefeatedMany (hA : LawfulArith A) {s : St α} (h : Inv A s) 
         have hc := h.cons
         unfold St.total at hc
         linarith }
+
+theorem Inv.transferDefeatedMany (hA : LawfulArith A) {s : St α} (h : Inv A s) (cids : List Nat) (verb : String)
+    (hnd : cids.Nodup)
+    (hx : ∀ cid ∈ cids, ∃ x ∈ s.cands, x.cid = cid ∧ ¬ x.inScope ∧ x.st ≠ .hopeful ∧ x.vote = s.tally A cid) :
+    Inv A (Droop.transferDefeated A s cids verb) := by
+  rw [transferDefeated_eq]
+  exact (h.defeatedCore A hA cids hnd hx).logAct A _ _ _
 
 end Droop
